@@ -17,7 +17,7 @@ def kernel_differential(rng, n):
     cases = []
     for _ in range(n):
         cases.append(dict(force=rng.random() < 0.3, due=rng.random() < 0.5, loc=rng.randrange(0, 6), arr=rng.randrange(0, 50)))
-    d = os.path.join(WORK, 'c19k')
+    d = os.path.join(WORK, 'c19k.%d' % os.getpid())          # per process: quick and thorough may run at the same time
     os.makedirs(d, exist_ok=True)
     json.dump(cases, open(os.path.join(d, 'cases.json'), 'w'))
     env = dict(os.environ, PYTHONPATH=f"{REPO}:{os.path.join(VERIF, 'harness')}", PYTHONHASHSEED='0')
